@@ -214,6 +214,11 @@ def assemble(unit_dir, repo, vacuity=False, variables=None, probe_insert=None):
                 if names != a["variants"].split(","):
                     raise ExtractError(f"enum {a['name']} in {a['file']} changed: variants {names}")
                 i += 1; continue
+            if s.startswith("//@check_unit_struct "):
+                a = _attrs(s[len("//@check_unit_struct "):])
+                if not re.search(r"(?m)^\s*(?:pub(?:\([a-z]+\))?\s+)?struct\s+%s\s*;" % re.escape(a["name"]), source(a["file"]).src):
+                    raise ExtractError(f"struct {a['name']} in {a['file']} changed: it is no longer a unit struct (the contracts were written for a stateless type)")
+                i += 1; continue
             if s.startswith("//@check_no_derive "):
                 a = _attrs(s[len("//@check_no_derive "):])
                 ds = source(a["file"]).derives(a["name"])
@@ -226,7 +231,19 @@ def assemble(unit_dir, repo, vacuity=False, variables=None, probe_insert=None):
                 i += 1; continue
             if s.startswith("//@extract_type "):
                 a = _attrs(s[len("//@extract_type "):])
-                it = source(a["file"]).find(a["item"])
+                try:
+                    it = source(a["file"]).find(a["item"])
+                except ExtractError:
+                    # a unit struct `struct X;` has no brace body for the item finder
+                    mu = re.match(r"struct\s+(\w+)$", a["item"].strip())
+                    mm = mu and re.search(r"(?m)^\s*(?:pub(?:\([a-z]+\))?\s+)?struct\s+%s\s*;" % mu.group(1), source(a["file"]).src)
+                    if not mm:
+                        raise
+                    if a.get("derive"):
+                        g.lines.append("#[derive(%s)]" % a["derive"])
+                    g.types.append({"file": a["file"], "item": a["item"], "sha": hashlib.sha256(mm.group(0).encode()).hexdigest()[:16], "rules": [("R3", "unit struct")]})
+                    emit(f"pub struct {mu.group(1)};")
+                    i += 1; continue
                 rl = []
                 txt = rewrite_sig(it.text, rl)          # R3 on the whole item (visibility of type and fields)
                 txt = re.sub(r"(?m)^\s*#\[[^\]]*\]\s*$", "", txt)  # attributes on fields (none expected)
@@ -803,6 +820,34 @@ def _emit_fn(g, source, a, blocks, vacuity, probe_insert=None):
             at = brace + 1 if "loop_start" in ia else _mc2(ltoks, brace)
             body = "".join(t.text for t in ltoks[:at]) + txt + "".join(t.text for t in ltoks[at:])
             continue
+        if "fn_exit" in ia:
+            # an obligation on EVERY exit of a unit-returning function: the ghost text is placed at the end of the body and
+            # in front of every `return;` (wrapped: `{ GHOST return; }`) — an early return must meet it as well
+            tk = tokenize(body)
+            outp = []
+            nret = 0
+            k = 0
+            while k < len(tk):
+                t = tk[k]
+                if t.kind == "ident" and t.text == "return":
+                    j = k + 1
+                    while j < len(tk) and tk[j].kind in ("ws", "comment"): j += 1
+                    if j < len(tk) and tk[j].text == ";":
+                        outp.append("{\n" + txt.rstrip() + "\n return; }")
+                        nret += 1
+                        k = j + 1
+                        continue
+                    if j < len(tk) and tk[j].text in (",", "}"):
+                        outp.append("{\n" + txt.rstrip() + "\n return }")
+                        nret += 1
+                        k += 1
+                        continue
+                    raise ExtractError(f"unsupported construct: fn_exit insert in {f.name}: `return <value>`")
+                outp.append(t.text)
+                k += 1
+            body = "".join(outp)
+            rules.append(("R6", f"fn_exit: ghost obligation placed at the end of the body and before {nret} early `return`(s)"))
+            ia["fn_end"] = "1"
         if "fn_end" in ia:
             # at the very end of the function body (only for bodies whose last statement ends with `;` or `}`)
             last = body.rstrip().rfind("}")
